@@ -305,7 +305,7 @@ func (s *session) endTail() string {
 		select {
 		case r := <-s.cancelCh:
 			c = " cancel=" + b2s(r)
-		case <-time.After(time.Second):
+		case <-hx.After(time.Second):
 			c = " cancel=hung"
 		}
 		s.cancelCh = nil
@@ -425,7 +425,7 @@ func (s *session) writer() {
 // waitFor polls cond (under the lock) until it holds, the node closed the connection, or the time
 // is up. Returns "ok", "closed" or "none".
 func (s *session) waitFor(d time.Duration, cond func() bool) string {
-	deadline := time.Now().Add(d)
+	left := d
 	for {
 		s.mu.Lock()
 		ok := cond()
@@ -437,26 +437,38 @@ func (s *session) waitFor(d time.Duration, cond func() bool) string {
 		if closed {
 			return "closed"
 		}
-		left := time.Until(deadline)
 		if left <= 0 {
 			return "none"
 		}
-		if left > 20*time.Millisecond {
-			left = 20 * time.Millisecond
-		}
-		select {
-		case <-s.wake:
-		case <-time.After(left):
-		}
+		left -= s.nap()
 	}
+}
+
+// nap waits for news from the reader goroutine or one millisecond and returns what it charges to a
+// patient budget: the time it really took, at most 2 ms (a starved process waits longer instead of
+// timing out, see hx.Until).
+func (s *session) nap() time.Duration {
+	t0 := time.Now()
+	select {
+	case <-s.wake:
+	case <-time.After(time.Millisecond):
+	}
+	el := time.Since(t0)
+	if el > 2*time.Millisecond {
+		el = 2 * time.Millisecond
+	}
+	if el <= 0 {
+		el = time.Microsecond
+	}
+	return el
 }
 
 // waitBarrier waits for the pong of the barrier ping. It gives up early ("none") when the node has
 // consumed every byte sent, is blocked reading for more, and nothing has arrived for a grace period
 // (its writer goroutine has had time to flush what the handlers queued).
 func (s *session) waitBarrier(d time.Duration, nonce uint64) string {
-	deadline := time.Now().Add(d)
-	quietSince := time.Time{}
+	left := d
+	quiet := time.Duration(-1) // charged time since the node was first seen quiescent with nothing new
 	lastRecv := -1
 	for {
 		s.mu.Lock()
@@ -477,26 +489,22 @@ func (s *session) waitBarrier(d time.Duration, nonce uint64) string {
 		if waiting && read == s.queued && s.handled.IsZero() {
 			s.handled = time.Now()
 		}
-		if waiting && read == s.queued && atomic.LoadInt64(&s.written) == s.queued && nrecv == lastRecv {
-			if quietSince.IsZero() {
-				quietSince = time.Now()
-			} else if time.Since(quietSince) >= quiesceGrace {
-				return "none"
-			}
-		} else {
-			quietSince = time.Time{}
+		isQuiet := waiting && read == s.queued && atomic.LoadInt64(&s.written) == s.queued && nrecv == lastRecv
+		if !isQuiet {
+			quiet = -1
+		} else if quiet < 0 {
+			quiet = 0
+		} else if quiet >= quiesceGrace {
+			return "none"
 		}
 		lastRecv = nrecv
-		left := time.Until(deadline)
 		if left <= 0 {
 			return "none"
 		}
-		if left > 5*time.Millisecond {
-			left = 5 * time.Millisecond
-		}
-		select {
-		case <-s.wake:
-		case <-time.After(left):
+		c := s.nap()
+		left -= c
+		if quiet >= 0 {
+			quiet += c
 		}
 	}
 }
@@ -656,7 +664,7 @@ func (s *session) waitRun(d time.Duration) string {
 	select {
 	case <-s.done:
 		return "returned"
-	case <-time.After(d):
+	case <-hx.After(d):
 		return "hung"
 	}
 }
@@ -789,7 +797,7 @@ func (s *session) finish() {
 	close(s.writeQ)
 	select {
 	case <-s.done:
-	case <-time.After(300 * time.Millisecond):
+	case <-hx.After(300 * time.Millisecond):
 	}
 	close(s.interrupt)
 }
@@ -1154,7 +1162,7 @@ func (w *worker) stepInner(line string) string {
 				return op + " => started=" + b2s(r) + " closed=1 run=" + s.waitRun(runReturnMax)
 			}
 			return op + " => started=" + b2s(r)
-		case <-time.After(waitOf(a, 300*time.Millisecond)):
+		case <-hx.After(waitOf(a, 300*time.Millisecond)):
 			s.cancelCh = ch
 			return op + " => started=hung"
 		}
@@ -1302,7 +1310,7 @@ func runScript(c **child, lines []string) (out []string, doubt bool) {
 		ok := false
 		select {
 		case res, ok = <-(*c).lines:
-		case <-time.After(60 * time.Second):
+		case <-hx.After(60 * time.Second):
 		}
 		if ok {
 			if strings.HasSuffix(res, " #timing-doubt") {
@@ -1350,7 +1358,7 @@ func runParent() {
 			return
 		}
 		var out []string
-		for attempt := 0; attempt < 4; attempt++ {
+		for attempt := 0; attempt < 8; attempt++ {
 			var doubt bool
 			out, doubt = runScript(&c, script)
 			if !doubt {
